@@ -253,10 +253,12 @@ impl<Octs: Composer> Opt<Octs> {
     where
         F: FnOnce(&mut Octs) -> Result<(), Octs::AppendError>,
     {
+        // The option is preceded by its code and length, two octets each.
         LongOptData::check_len(
             self.octets
                 .as_ref()
                 .len()
+                .saturating_add(4)
                 .saturating_add(usize::from(option_len)),
         )?;
 
